@@ -24,6 +24,11 @@ pub enum Backend {
     Wasm,
 }
 impl Backend {
+    /// both back ends; only the VM inside the Miri interpreter (wasmtime is JIT + C FFI, which Miri cannot
+    /// enter) or when MMV_VM_ONLY is set
+    pub fn all() -> &'static [Backend] {
+        if cfg!(miri) || std::env::var_os("MMV_VM_ONLY").is_some() { &[Backend::Vm] } else { &[Backend::Vm, Backend::Wasm] }
+    }
     pub fn name(self) -> &'static str {
         match self {
             Backend::Vm => "vm",
